@@ -66,15 +66,20 @@ def kholawIndexBytes (s : Scheme) (idx : Nat) : Bytes :=
   if s = .byronLegacy then Bytes.ofNatBE 4 idx else Bytes.ofNatLE 4 idx
 
 /-- `_NewPrivateKeyLeftPart`.  BIP32-Ed25519 (Khovratovich-Law / Icarus): `Bip32KeyError` when the
-sum `kL + 8·zL[:28]` is `≡ 0 (mod L)`, and also `Bip32KeyError` (no longer `OverflowError`) when it
-does not fit in 32 bytes; the `mod L` test comes first. -/
+sum `kL + 8·zL[:28]` is `≡ 0 (mod L)`, and also `Bip32KeyError` when the sum is `≥ 2^255`; the
+`mod L` test comes first.  History of the size test: originally there was none and a sum `≥ 2^256`
+escaped as `OverflowError` from `int.to_bytes`; a first repair refused `≥ 2^256` with
+`Bip32KeyError`; a second repair lowered the bound to `2^255`.  Reason: `2^255` is the range of
+scalars of libsodium's no-clamp base-point multiplication (it ignores bit 255); with a larger left
+half the public key computed from the private child — which the model computes from
+`edNoClampScalar` = value mod `2^255` — would differ from the publicly derived child key. -/
 def kholawNewLeft (s : Scheme) (zl kl : Bytes) : R Bytes :=
   if s = .byronLegacy then
     toBytesLE ((Bytes.toNatLE (mulNoCarry8 zl) + Bytes.toNatLE kl) % edL) 32
   else
     let v := Bytes.toNatLE (zl.take 28) * 8 + Bytes.toNatLE kl
     if v % edL = 0 then throw .key
-    else if 2 ^ 256 ≤ v then throw .key
+    else if 2 ^ 255 ≤ v then throw .key
     else toBytesLE v 32
 
 def kholawNewRight (s : Scheme) (zr kr : Bytes) : R Bytes :=
